@@ -15,7 +15,10 @@ MANIFEST = dict(
               'abstract execution, proved equal to the hand model when its rows are the model\'s) + exhaustive code-point / small-scope correspondence + in-kernel '
               'small-scope enumeration of the model of the code + oracle search (incl. histories: state carried from one tokenizer to the next); '
               'round 4: _get_token / _handle_comment read from the source as decision trees proved equal to the hand model when they pass eight '
-              'boolean conditions, a state census, and the whole property in one theorem for the three functions as written',
+              'boolean conditions, a state census, and the whole property in one theorem for the three functions as written; '
+              'round 5: histories of calls (escape_text in the other mode first, fresh interpreters), options set through the public attributes '
+              'after construction / between tokens (oracle, correspondence with the constructor form, option census), an escape_text state census, '
+              'look-ahead regexes modelled, one option vector per call in the trace theorem',
     text='Theorems in Props/C02.v, for every string (list of code points), both multiline modes, every option vector with '
          'allow_escapes, any starting line and any text following the closing quote: tokenizing DQ+escape(s)+DQ yields exactly '
          'STRING s then EOF for ever (flat input and the chunked reader state of the real class, any chunking); the escaped '
@@ -36,6 +39,16 @@ MANIFEST = dict(
          'boolean conditions, give exactly STRING s then EOF for ever for every string, both modes and ANY chunking. A state census '
          '(no data attribute bound in the class body, no self attribute / module name outside line_num, _last_was_cr, the options and the '
          'reader read or written, constant tables never mutated) backs the premise that nothing outlives a call. '
+         'Round 5: the options are public settable attributes read by every call: tokens_flat_opts gives a trace one option vector per call, '
+         'c02_inverse_options_read_at_call_time / c02_one_call_as_written say that escapes need to be enabled only during the call that reads '
+         'the string, from any reader state left by earlier calls; that the class really reads the attributes at call time is the obligation '
+         'tokenizer_options_are_read_from_the_public_attribute_at_call_time (option census of __init__ and the class body) and the '
+         'correspondence options_by_attribute (constructor form vs every option inverted at construction and set by setattr). escape_text is '
+         'modelled as a function of (text, multiline): the obligation escape_text_uses_no_state_outliving_the_call (census of escape_text, its '
+         'callback and helpers: decorators, global, mutable module-level objects, shared defaults) backs that. A regex alternative X(?!Y) is '
+         'modelled (PSubLA: X is copied when Y follows); such a pipeline is never one table substitution (c02_lookahead_refuted). When the body '
+         'of escape_text is outside the statement language, translate:escape_text fails by name and a per-character stand-in sampled from the '
+         'implementation keeps every other obligation and correspondence evaluated. '
          'The theorems are generic over the tables; the conditions '
          '(every escape decodes back, no symbol is a line feed, DQ/CR/backslash always escaped, LF escaped in single-line mode, '
          'DQ is not an operator) are discharged by vm_compute for the tables regenerated from the source on every run. '
@@ -106,8 +119,13 @@ def oracle(s: str, multiline: bool, pre: str = '', post: str = '', cut: int | No
         return f'hang: no result within {U.IMPL_LIMIT_S:.0f} s of CPU time'
 
 
+_ALIAS: dict[str, Any] = {}      # set while an alias of escape_text / Tokenizer found in another module is being tried
+
+
 def _oracle(s: str, multiline: bool, pre: str, post: str, cut: int | None, bits: int, via: str = 'ctor') -> str | None:
     from srctools.tokenizer import Token, Tokenizer, TokenSyntaxError, escape_text
+    escape_text = _ALIAS.get('escape_text', escape_text)
+    Tokenizer = _ALIAS.get('Tokenizer', Tokenizer)
     try:
         esc = escape_text(s, multiline)
     except Exception as e:  # noqa: BLE001
@@ -296,6 +314,100 @@ def history_search(ck: Ck) -> None:
                              {'s': [ord(c) for c in s], 'multiline': ml, 'context': {'kv': True} if kv else {}, 'history': kind, 'why': r,
                               'how': 'checks.c02.run_poison(history); checks.c02.oracle("".join(map(chr, s)), multiline)'})
     ck.hist('search', f'histories: {len(POISONS)} kinds of earlier event x strings up to length 2 x 2 modes', 2 * len(POISONS) * 211)
+
+
+# ------------------------------------------------------------------------------------------------ the public names are the checked objects
+def public_names(ck: Ck) -> None:
+    """The translators read `def escape_text` and `class Tokenizer` in tokenizer.py; callers get whatever the NAMES are bound to
+    when the import has finished (the module ends with a block that selects between a C and a Python version; other modules
+    re-export the names: srctools.keyvalues.escape_text is what vmf.py uses).  Obligation: every public name by which the two can
+    be reached is the very object that was compiled from the definition the translators read - a plain function / class, not a
+    wrapper, a partial, a subclass or a second definition.  A name that is something else is tried with the oracle."""
+    import importlib
+    import types
+
+    from harness.common import REPO
+    import srctools.tokenizer as T
+    bad: list[str] = []
+    side = ck.extra.get('translated', {}).get('EscTables_gen', {})
+    f = T.escape_text
+    if not (isinstance(f, types.FunctionType) and f.__module__ == 'srctools.tokenizer' and f.__name__ == 'escape_text' and f.__closure__ is None
+            and f.__defaults__ == (False,) and not f.__kwdefaults__ and not f.__dict__):
+        bad.append(f'srctools.tokenizer.escape_text is {f!r} (module {getattr(f, "__module__", "?")}, defaults {getattr(f, "__defaults__", "?")}, '
+                   f'attributes {sorted(getattr(f, "__dict__", {}))}): not the plain function defined in tokenizer.py')
+    elif side.get('escape_text_line') and f.__code__.co_firstlineno != side['escape_text_line']:
+        bad.append(f'srctools.tokenizer.escape_text was compiled from line {f.__code__.co_firstlineno}, the translator read the definition at line {side["escape_text_line"]}')
+    K = T.Tokenizer
+    if not (isinstance(K, type) and K.__module__ == 'srctools.tokenizer' and K.__qualname__ == 'Tokenizer'):
+        bad.append(f'srctools.tokenizer.Tokenizer is {K!r}: not the class defined in tokenizer.py')
+    else:
+        for m in ('__init__', '__call__', '_get_token', '_handle_string', '_handle_comment', '_next_char'):
+            holder = next((c for c in K.__mro__ if m in c.__dict__), None)
+            fn = holder.__dict__[m] if holder is not None else None
+            if not (isinstance(fn, types.FunctionType) and fn.__module__ == 'srctools.tokenizer' and not fn.__dict__ and fn.__code__.co_freevars in ((), ('__class__',))) \
+                    or (m != '__call__' and holder is not K):
+                bad.append(f'Tokenizer.{m} is {fn!r} (found in {holder}): not a plain method of the class in tokenizer.py')
+    ref = {'escape_text': T.escape_text, 'Tokenizer': T.Tokenizer}
+    aliases = [('srctools.tokenizer', a, getattr(T, a, None), r) for a, r in (('_py_escape_text', 'escape_text'), ('cy_escape_text', 'escape_text'),
+                                                                            ('Py_Tokenizer', 'Tokenizer'), ('Cy_Tokenizer', 'Tokenizer'))]
+    # every module of the package that imports one of the two names re-exports it
+    src = REPO / 'src' / 'srctools'
+    import ast as _ast
+    mods = 0
+    for path in sorted(src.rglob('*.py')):
+        try:
+            tree = _ast.parse(path.read_text(encoding='utf8'))
+        except (SyntaxError, OSError, UnicodeDecodeError):
+            continue
+        got = {(a.asname or a.name) for n in tree.body if isinstance(n, _ast.ImportFrom) for a in n.names if a.name in ref}
+        got |= {n.name for n in tree.body if isinstance(n, (_ast.FunctionDef, _ast.ClassDef)) and n.name in ref}
+        if not got or path.name == 'tokenizer.py':
+            continue
+        name = '.'.join(('srctools',) + path.relative_to(src).with_suffix('').parts).removesuffix('.__init__')
+        try:
+            with U.time_limit():
+                mod = importlib.import_module(name)
+        except BaseException as e:  # noqa: BLE001 - optional dependencies, Cython-only modules
+            ck.count('alias_modules_not_importable')
+            if isinstance(e, (KeyboardInterrupt, SystemExit)):
+                raise
+            continue
+        mods += 1
+        for a in sorted(got):
+            orig = next((al.name for n in tree.body if isinstance(n, _ast.ImportFrom) for al in n.names if (al.asname or al.name) == a and al.name in ref), a)
+            aliases.append((name, a, getattr(mod, a, None), orig))
+    tried = 0
+    for modname, a, obj, r in aliases:
+        ck.count('public_aliases')
+        if obj is ref[r]:
+            continue
+        bad.append(f'{modname}.{a} is {obj!r}, not srctools.tokenizer.{r}')
+        if not callable(obj) or tried >= 4:
+            continue
+        tried += 1
+        _ALIAS[r] = obj
+        try:
+            done = False
+            for ml in (False, True):
+                for s_ in U.strings_upto(ESC_ALPHA, 2):
+                    why = oracle(s_, ml)
+                    if why is not None and not done:
+                        done = True
+                        mode = 'multi' if ml else 'single'
+                        kind = why.split(' ')[0] if why.startswith(('raw-', 'linebreak', 'dangling')) else 'roundtrip'
+                        ck.violation(f'{kind}-{mode}-{"+".join(cname(c) for c in s_) or "empty"}-through-{modname}.{a}',
+                                     f'{modname}.{a} is not srctools.tokenizer.{r}; with it, s={s_!r} multiline={ml}: {why}',
+                                     {'s': [ord(c) for c in s_], 'multiline': ml, 'context': {}, 'alias': [modname, a, r], 'why': why,
+                                      'how': f'the property with {modname}.{a} in the place of srctools.tokenizer.{r}'})
+        finally:
+            _ALIAS.clear()
+    ck.hist('tie', f'public names compared by identity ({len(aliases)} names in {mods + 1} modules)', len(aliases))
+    ck.obligation('tie:public_names_are_the_checked_objects', not bad,
+                  f'escape_text / Tokenizer as importers get them ({len(aliases)} names in {mods + 1} modules of the package, the Py_/Cy_/_py_/cy_ aliases '
+                  f'included) are the plain function / class compiled from the definitions the translators read: '
+                  + ('yes' if not bad else '; '.join(bad[:6])))
+    if bad:
+        ck.tie_broken.append(f'public names are not the checked objects: {bad[:3]}')
 
 
 # ------------------------------------------------------------------------------------------------ histories of escape_text calls (fresh interpreters)
@@ -752,52 +864,6 @@ def corr_quoted(ck: Ck, escalate: bool) -> None:
                   + ('agree' if not bad else f'{len(bad)} shards disagree; {detail}'))
 
 
-SYNTAX_ALPHA = ['"', '\\', 'n', '[', ']', '(', ')', '#', '/', '*', ':', '+', '\n', 'x', ' ']
-
-
-def _by_attribute_shard(bits: int) -> tuple[int, list]:
-    bad = []
-    cnt = 0
-    for w in U.strings_upto(SYNTAX_ALPHA, 3):
-        cnt += 1
-        a = U.impl_results(w, bits, len(w) + 2)
-        b = U.impl_results(w, bits, len(w) + 2, via='attr')
-        if a != b and len(bad) < 3:
-            bad.append((bits, w, a, b))
-    return cnt, bad
-
-
-def corr_options_by_attribute(ck: Ck) -> None:
-    """The model takes the option vector as a parameter of every call (`get_token T o ...`); the class reads seven public,
-    documented, settable attributes.  Tie: a tokenizer whose options were set through the attributes after construction (every
-    option was the other way round in the constructor) gives the same trace as one that got them as constructor arguments - all
-    texts over a 15-character syntax alphabet up to length 3, for the default vector, each single-option change of it, all on,
-    all off and six random vectors (thorough: all 128)."""
-    if ck.thorough:
-        vecs = list(range(128))
-    else:
-        rng = ck.rng
-        vecs = sorted({BITS_ESC, 0, 127} | {BITS_ESC ^ (1 << i) for i in range(7)} | {rng.randrange(128) for _ in range(6)})
-    res = U.pool_map(_by_attribute_shard, vecs)
-    bad = [b for _, bs in res for b in bs]
-    n = sum(c for c, _ in res)
-    ck.count('options_by_attribute_cases', n)
-    ck.hist('correspondence', f'options by attribute vs by constructor: {len(vecs)} option vectors x texts up to length 3 over {len(SYNTAX_ALPHA)} characters', n)
-    detail = ''
-    if bad:
-        bits, w, a, b = bad[0]
-        opts = U.opts_of_bits(bits)
-        detail = (f'; first: text={w!r} options={ {k: v for k, v in opts.items()} } by constructor: {U.decode_results(a)} '
-                  f'set by attribute afterwards: {U.decode_results(b)}')
-        ck.extra['options_by_attribute_disagreements'] = [{'text': w, 'option_bits': bits, 'by_constructor': U.decode_results(a),
-                                                           'by_attribute': U.decode_results(b)} for bits, w, a, b in bad[:10]]
-        ck.tie_broken.append('a Tokenizer whose options are set through the public attributes after construction behaves differently from one '
-                             'that got them as constructor arguments (the model takes the options as a parameter of every call)')
-    ck.obligation('correspondence:options_by_attribute', not bad,
-                  f'Tokenizer(text, **opts) vs Tokenizer(text, **opposite) followed by setattr of every option: {n} cases '
-                  f'({len(vecs)} option vectors, token kind/value/line_num/_last_was_cr/error): ' + ('agree' if not bad else f'{len(bad)} disagreements (capped)' + detail))
-
-
 def _quoted_shard(sh) -> tuple[int, int, dict]:
     bits, pref, k = sh
     p = ''.join(map(chr, pref))
@@ -846,12 +912,15 @@ def _run(ck: Ck) -> None:
                'astral) of length 1..200 embedded in ten token contexts, cut into chunks at a random position, under other '
                'option vectors, through Keyvalues.parse, non-trivial = contains a character of the escape alphabet; histories: 11 kinds of '
                'earlier event (failed / complete / abandoned parses) followed by every string up to length 2 in a new tokenizer, '
-               'non-trivial = two different characters; distinct by full input')
+               'non-trivial = two different characters; escape_text histories: the other mode first, in two fresh interpreters, strings up to '
+               'length 2; options by attribute: every string up to length 3 with every option inverted in the constructor and set by setattr, '
+               'a third of the random cases that way and a third with the options set after the prefix tokens were read; distinct by full input')
     ck.trusted.append('hand-written model Text/Tokenizer.v (handle_string/get_token) and Text/Escape.v (tied by exhaustive small-scope and per-code-point differential runs on every run; handle_string also by the decision table read from the source)')
     ck.trusted.append('translate/c02_hstring.py: abstract execution of the loop body of Tokenizer._handle_string (fail-closed outside its statement language)')
     ck.trusted.append('translate/c02_gettoken.py: abstract execution of the segments of Tokenizer._get_token / _handle_comment into decision trees, and the state census (fail-closed outside its statement language)')
     ck.trusted.append('harness/c02_util.py checksum mirror of Text/TokEnum.v (63-bit; a collision would hide a disagreement)')
     ck.assumptions.append('Python str = list of code points; re.sub over an alternation of single characters acts per character (exercised by the string correspondence)')
+    ck.trusted.append('translate/c02_tables.py escape_text_census and translate/c02_gettoken.py option_census (syntactic censuses: what they do not list is assumed stateless / read at call time)')
     ck.assumptions.append('pure-Python tokenizer only; the Cython twin _tokenizer.pyx cannot be built in this sandbox')
     ok_t = ck.translate('EscTables_gen', lambda: c02_tables.translate(sample=sample_escape_text))
     side0 = ck.extra.get('translated', {}).get('EscTables_gen', {})
@@ -872,6 +941,8 @@ def _run(ck: Ck) -> None:
     escalate = bool(side) and any(side.get('digests', {}).get(k) != v for k, v in c02_tables.MODEL_DIGESTS.items())
     if escalate:
         ck.notes.append('hand-modelled tokenizer functions changed since the model was written: correspondence budgets escalated')
+    if ok_t:
+        public_names(ck)
     built = ok_t and ck.build(['Props/C02.vo', 'Text/TokEnum.vo', 'Text/HsGen.vo', 'Text/GtGen.vo'])
     if built:
         th = U.theorems_in_background(ck, 'Props/C02.v')
@@ -900,7 +971,7 @@ def _run(ck: Ck) -> None:
         corr_codepoints(ck)
         corr_escape_strings(ck, escalate)
         corr_quoted(ck, escalate)
-        corr_options_by_attribute(ck)
+        U.corr_options_by_attribute(ck)
         U.join_theorems(ck, th)
     search(ck, escalate)
     if ck.violations:
@@ -921,6 +992,14 @@ def replay(data: dict) -> int:
     s = ''.join(map(chr, r['s']))
     ml = bool(r['multiline'])
     ctx = r.get('context') or {}
+    if r.get('alias'):
+        import importlib
+        modname, a, ref_name = r['alias']
+        obj = getattr(importlib.import_module(modname), a)
+        print(f'{modname}.{a} = {obj!r} is used in the place of srctools.tokenizer.{ref_name}')
+        _ALIAS[ref_name] = obj
+        if ref_name == 'escape_text':
+            escape_text = obj
     if r.get('history') == ESC_HISTORY:
         print(f'history: first escape_text(s, multiline={not ml}) = {escape_text(s, not ml)!r}')
     elif r.get('history') == 'earlier-calls-in-the-checking-process':
